@@ -410,6 +410,10 @@ func runRandomHistory(rng *rand.Rand, t *vtree, w *vwriter, mode, label string, 
 	}
 	for op := 0; op < nops; op++ {
 		r := rng.Intn(20)
+		if rng.Intn(7) == 0 {
+			// cold caches for the next operation (an observation in between would warm them again)
+			n.guard(func() (int, error) { n.bc.Stop(); n.open(); return 0, nil })
+		}
 		switch {
 		case r == 0 && allowRewind:
 			cur := n.bc.CurrentHeader().Number.Uint64()
@@ -542,9 +546,20 @@ func runRewindRedeliver(rng *rand.Rand, t *vtree, w *vwriter) {
 				continue
 			}
 			done++
-			n := t.newNode(w, "archive", fmt.Sprintf("rewind-redeliver-%d", done))
+			mode := "archive"
+			if done%2 == 0 {
+				mode = "pruning" // after a restart the state of the rewind target is gone: the block head falls back further
+			}
+			n := t.newNode(w, mode, fmt.Sprintf("rewind-redeliver-%d", done))
 			n.insert(pa)
+			if done%2 == 0 {
+				// cold caches: the rewind has to find everything in the database (no observation in between: reading warms them)
+				n.guard(func() (int, error) { n.bc.Stop(); n.open(); return 0, nil })
+			}
 			n.setHead(uint64(k)) // back to the fork point
+			if done%2 == 0 && k > 0 {
+				n.insert(pa[:1]) // a block that still is canonical at its number is executed again
+			}
 			n.insert(pb)
 			n.insert(pa[k:])
 			n.insert(pb[k:])
